@@ -29,7 +29,7 @@ CLAIM = ("The named and numeric replacement tables equal independent copies (htm
          "all interval boundaries), with matching radix and digit sets; the attribute exception and the not-a-reference "
          "pre-check have exactly the standard's character sets; references are consumed in exactly the five contexts with "
          "the right additional allowed character; every named reference the serializer can emit decodes back to its character.")
-NOT_DECIDED = "the entity trie's prefix search and the longest-match loop of consumeEntity (run-time string handling)."
+NOT_DECIDED = "the entity trie's has_keys_with_prefix search (bisect on run-time strings) and the look-ahead loop of consumeEntity."
 MODULES = ["_tokenizer.py", "constants.py", "serializer.py", "_trie/py.py", "_trie/_base.py"]
 REL = "_tokenizer.py"
 
@@ -48,6 +48,7 @@ def run(ctx):
     r.rule("R14.4", "attribute-value exception: exactly semicolon-less match + [A-Za-z0-9=] + attribute context", floor=500)
     r.rule("R14.5", "every named reference the encoder emits decodes back to the same character; form is &name; or &#x..;", floor=1000)
     r.rule("R14.6", "character references are consumed in exactly data, RCDATA and the three attribute-value states", floor=5)
+    r.rule("R14.8", "the trie's longest_prefix tries the argument and then every shorter prefix in decreasing length", floor=8)
     r.rule("R14.7", "not-a-reference pre-check: white space, <, &, EOF, additional allowed character", floor=500)
 
     import html.entities
@@ -71,6 +72,7 @@ def run(ctx):
     named(ctx)
     reverse_map(ctx, ents)
     contexts(ctx)
+    trie_rules(ctx)
 
 
 def numeric(ctx, rep):
@@ -273,6 +275,59 @@ def contexts(ctx):
             "processEntityInAttribute no longer passes the allowed character / attribute flag")
 
 
+def trie_rules(ctx, rid="R14.8"):
+    """The longest-match of a named reference: the trie the tokenizer uses resolves longest_prefix to a method whose candidate
+    sequence is the argument itself and then *every* shorter non-empty prefix in decreasing length, each tested for membership and
+    returned on the first hit; has_keys_with_prefix is true for exact keys."""
+    r = ctx.r
+    repo, ce = ctx.repo, ctx.ce
+    init = repo.module("_trie/__init__.py")
+    used = None
+    for st in init.tree.body:
+        if isinstance(st, ast.ImportFrom) and any(a.name == "Trie" for a in st.names):
+            used = (st.module or "").lstrip(".")
+    if used is None:
+        raise AnalysisError("_trie/__init__.py no longer imports Trie from a sibling module")
+    cls = repo.cls("_trie/%s.py" % used, "Trie")
+    f = cls.find_method("longest_prefix")
+    if f is None:
+        raise AnalysisError("Trie.longest_prefix vanished")
+    p = f.params()[1]
+    body = [s for s in f.node.body if not (isinstance(s, ast.Expr) and isinstance(s.value, ast.Constant))]
+    where = f.where
+    shape_ok = (len(body) == 3 and isinstance(body[0], ast.If) and norm(body[0].test) == "%s in self" % p and
+                [norm(x) for x in body[0].body] == ["return %s" % p] and isinstance(body[1], ast.For) and
+                isinstance(body[1].target, ast.Name) and len(body[1].body) == 1 and isinstance(body[1].body[0], ast.If) and
+                isinstance(body[2], ast.Raise) and "KeyError" in norm(body[2]))
+    if shape_ok:
+        loop = body[1]
+        inner = loop.body[0]
+        t = inner.test
+        shape_ok = (isinstance(t, ast.Compare) and isinstance(t.ops[0], ast.In) and norm(t.comparators[0]) == "self" and
+                    len(inner.body) == 1 and isinstance(inner.body[0], ast.Return) and norm(inner.body[0].value) == norm(t.left))
+    if not r.idiom(rid, shape_ok, "longest-prefix-shape", where,
+                   "Trie.longest_prefix is not `if p in self: return p; for i in range(..): if cand in self: return cand; raise KeyError`"):
+        return
+    cand = inner.test.left
+    var = loop.target.id
+    for n in range(1, 8):
+        s = "abcdefgh"[:n]
+        try:
+            its = list(ce.eval(loop.iter, f.module, {p: s}))
+            lens = [len(ce.eval(cand, f.module, {p: s, var: i})) for i in its]
+        except NotConstant as e:
+            r.idiom(rid, False, "longest-prefix-candidates[len=%d]" % n, where, "candidate sequence not evaluable (%s)" % e)
+            continue
+        lens = [x for x in lens if x > 0]                   # the empty string is never a key
+        exp = list(range(n - 1, 0, -1))
+        r.check(rid, lens == exp, "longest-prefix-candidates[len=%d]" % n, "%s:%d" % (f.module.rel, loop.lineno),
+                "Trie.longest_prefix tries prefixes of length %s for an argument of length %d (after the argument itself); the longest "
+                "match needs every length %s in this order (e.g. &notit; must match &not, not a shorter or no reference)" % (lens, n, exp),
+                {"len": n, "candidates": lens}, detail={"len": n, "candidates": lens})
+    g = cls.find_method("has_keys_with_prefix")
+    r.check(rid, g is not None, "has-keys-with-prefix", cls.where, "Trie.has_keys_with_prefix vanished")
+
+
 def thorough(ctx):
     from .. import selftest
     selftest.run(ctx, sys.modules[__name__])
@@ -281,6 +336,8 @@ def thorough(ctx):
 def mutants():
     from ..selftest import TextMutant as T
     return [
+        T("trie-skip-one", "_trie/_base.py", "        for i in range(1, len(prefix) + 1):", "        for i in range(2, len(prefix) + 1):", "R14.8"),
+        T("trie-increasing", "_trie/_base.py", "            if prefix[:-i] in self:\n                return prefix[:-i]", "            if prefix[:i] in self:\n                return prefix[:i]", "R14.8"),
         T("entity-value", "constants.py", '"AElig": "\\xc6",', '"AElig": "\\xc5",', "R14.1"),
         T("entity-missing", "constants.py", '    "amp": "&",\n', '', "R14.1"),
         T("replacement-80", "constants.py", '    0x80: "\\u20AC",', '    0x80: "\\u0080",', "R14.2"),
